@@ -610,9 +610,16 @@ func (r *RegisteredDecoys) track(d *DecoyRegistration) error {
 		regID:            d.IDString(),
 		status:           regStatusUnused,
 	}
-	r.decoysTimeouts[d.IDString()+phantomAddr] = newTimeout
+	r.decoysTimeouts[timeoutIndex(phantomAddr, identifier)] = newTimeout
 
 	return nil
+}
+
+// timeoutIndex returns the key of the timeout record for a tracked registration. It has to be as
+// specific as the key of the registration itself (phantom and transport identifier), otherwise two
+// registrations sharing a secret (or a secret prefix) on one phantom would share one record.
+func timeoutIndex(phantomAddr, identifier string) string {
+	return phantomAddr + "|" + identifier
 }
 
 func (r *RegisteredDecoys) register(darkDecoyAddr string, d *DecoyRegistration) error {
@@ -651,8 +658,13 @@ func (r *RegisteredDecoys) markActive(d *DecoyRegistration) {
 	r.m.Lock()
 	defer r.m.Unlock()
 
+	t, ok := r.transports[d.Transport]
+	if !ok {
+		return
+	}
+
 	phantomAddr := d.PhantomIp.String()
-	if regTimeout, ok := r.decoysTimeouts[d.IDString()+phantomAddr]; ok {
+	if regTimeout, ok := r.decoysTimeouts[timeoutIndex(phantomAddr, t.GetIdentifier(d))]; ok {
 		regTimeout.status = regStatusUsed
 
 		// Since we update the applicable timeout here, we should update that
